@@ -63,20 +63,50 @@ def run(ctx, chk):
            not reb, str(reb), ob.module.path)
     # reset / step return the observation through numpy_flat()/numpy() only
     r = envfacts.reset_run(ctx)
-    ok = len(r.returns) == 1 and r.returns[0][1][0] == "tuple" and len(r.returns[0][1][1]) == 2
-    detail = ""
-    if ok:
-        o, info = r.returns[0][1][1]
-        detail = r.show(o)[:300]
+    from sa.canon import f_implies, f_not, A, f_and
+    # every exit hands out (observation, {}); the alternatives - one return of a conditional value,
+    # or one return per branch - are judged under their own condition on flat_obs
+    alts = []
+    shape_ok = bool(r.returns)
+    iok = bool(r.returns)
+    for pc, t in r.returns:
+        if not (t[0] == "tuple" and len(t[1]) == 2):
+            shape_ok = False
+            continue
+        o, info = t[1]
+        iok = iok and info[0] == "dictobj" and not r.ip.heap[info[1]]["items"] \
+            and not r.ip.heap[info[1]]["dyn"]
+        cond = r.cn.conj(tuple(c for c in pc if c[0] != "fact"))
         on = r.cn.norm(o)
-        ok = on[0] == "phi" and r.show(on[1]) == "self.flat_obs" and \
-            on[2][0] == "mcall" and on[2][2] == "flatten" and on[2][1][0] == "zeros" and \
-            on[3][0] == "zeros" and on[2][1] == on[3] and \
-            on[3][2] == ("ext", "numpy.float32")
-        iok = info[0] == "dictobj" and not r.ip.heap[info[1]]["items"] and \
-            not r.ip.heap[info[1]]["dyn"]
-        chk.ob("C10.tuples", "reset returns (observation, {})", iok, r.show(info),
-               r.fi.module.path)
+        if on[0] == "phi":
+            c_ = r.cn.formula(on[1])
+            alts += [(f_and([cond, c_]), on[2]), (f_and([cond, f_not(c_)]), on[3])]
+        else:
+            alts.append((cond, on))
+    FLAT = A("self.flat_obs")
+
+    def is_zeros32(t):
+        return t[0] == "zeros" and t[2] == ("ext", "numpy.float32")
+    ok = shape_ok and len(alts) >= 2
+    sites = set()
+    seen_flat = seen_2d = False
+    for cond, on in alts:
+        if f_implies(cond, FLAT):
+            good = on[0] == "mcall" and on[2] == "flatten" and is_zeros32(on[1])
+            seen_flat = seen_flat or good
+            sites.add(on[1] if good else None)
+        elif f_implies(cond, f_not(FLAT)):
+            good = is_zeros32(on)
+            seen_2d = seen_2d or good
+            sites.add(on if good else None)
+        else:
+            good = False
+        ok = ok and good
+    ok = ok and seen_flat and seen_2d and len(sites) == 1
+    detail = "; ".join(f"{f_show(c)[:60]} -> {r.show(o)[:80]}" for c, o in alts)
+    if shape_ok:
+        chk.ob("C10.tuples", "reset returns (observation, {})", iok,
+               str([r.show(t)[:60] for _, t in r.returns]), r.fi.module.path)
     chk.ob("C10.dtype", "reset returns the float32 zeros-based observation tensor, flattened iff "
            "flat_obs", ok, detail, r.fi.module.path)
     s = envfacts.step_shallow(ctx)
